@@ -217,6 +217,8 @@ def mon_C03(s):
         if op["op"] == "req" and op["status"] in ("running", "resuming"):
             pause_req = False
         infl, parked = led[i]
+        if parked or (op["op"] == "report" and op["status"] in ("pending", "paused")):
+            pause_req = True     # the workflow may rest paused because a task is (or was) parked
         if op["op"] == "next" and isinstance(r["res"], list) and not r["res"] and not infl:
             status = st["status"]
             if parked and status in ("running", "resuming"):
